@@ -4,6 +4,7 @@ outside the views: the C02 face) of exactly the value the declarative spec presc
 views, needles, positions and counts.
 -/
 import TetlProofs.C08.Lemmas
+import TetlProofs.C08.Rfind
 namespace Tetl.C08.Props
 open Tetl Tetl.C08
 
@@ -39,5 +40,482 @@ theorem compare_eq (a b : Str) : compare a b = .ok (Spec.cmp a b) := by
   simp only [hr, hs, ok_bind]
   repeat' split
   all_goals rfl
+
+
+/-! ## find_first_of / find_first_not_of -/
+
+theorem anyEq_eq (v : Str) (x : Nat) : anyEq v x = v.contains x := by
+  induction v with
+  | nil => simp [anyEq]
+  | cons y v ih =>
+    simp only [anyEq, List.any_cons, List.contains_cons] at ih ⊢
+    rw [ih, Bool.beq_comm]
+
+theorem findFirstOfLoop_eq (h v : Str) (n idx : Nat) (hn : n = 0 ∨ idx + n ≤ h.length) :
+    findFirstOfLoop h v n idx = .ok ((List.range' idx n).find?
+      (fun i => match h[i]? with | some c => v.contains c | none => false)) := by
+  induction n generalizing idx with
+  | zero => simp [findFirstOfLoop]
+  | succ n ih =>
+    have hlt : idx < h.length := by omega
+    simp only [findFirstOfLoop, rd_ok hlt, ok_bind, List.range'_succ, List.find?_cons,
+      List.getElem?_eq_getElem hlt, anyEq_eq]
+    cases hc : v.contains h[idx] with
+    | true => simp
+    | false =>
+      simp only [Bool.false_eq_true, if_false]
+      exact ih (idx + 1) (by omega)
+
+/-- `find_first_of(v, pos)`: no out-of-view read, result = lowest `xpos ≥ pos` with `h[xpos] ∈ v`. -/
+theorem find_first_of_eq (h v : Str) (pos : Nat) :
+    findFirstOf h v pos = .ok (Spec.findFirstOf h v pos) := by
+  unfold findFirstOf Spec.findFirstOf
+  exact findFirstOfLoop_eq h v _ pos (by omega)
+
+
+theorem findFirstNotOfLoop_eq (h v : Str) (n idx : Nat) (hn : n = 0 ∨ idx + n ≤ h.length) :
+    findFirstNotOfLoop h v n idx = .ok ((List.range' idx n).find?
+      (fun i => match h[i]? with | some c => !v.contains c | none => false)) := by
+  induction n generalizing idx with
+  | zero => simp [findFirstNotOfLoop]
+  | succ n ih =>
+    have hlt : idx < h.length := by omega
+    simp only [findFirstNotOfLoop, rd_ok hlt, ok_bind, List.range'_succ, List.find?_cons,
+      List.getElem?_eq_getElem hlt, traitsFind_eq]
+    cases hc : v.contains h[idx] with
+    | false => simp
+    | true =>
+      simp only [Bool.not_true, Bool.false_eq_true, if_false]
+      exact ih (idx + 1) (by omega)
+
+/-- `find_first_not_of(sv, pos)` -/
+theorem find_first_not_of_eq (h v : Str) (pos : Nat) :
+    findFirstNotOf h v pos = .ok (Spec.findFirstNotOf h v pos) := by
+  unfold findFirstNotOf Spec.findFirstNotOf
+  split
+  · exact findFirstNotOfLoop_eq h v _ pos (by omega)
+  · have : h.length - pos = 0 := by omega
+    simp [this]
+
+theorem findFirstNotOfCharLoop_eq (h : Str) (c n idx : Nat) (hn : n = 0 ∨ idx + n ≤ h.length) :
+    findFirstNotOfCharLoop h c n idx = .ok ((List.range' idx n).find?
+      (fun i => match h[i]? with | some x => !([c] : Str).contains x | none => false)) := by
+  induction n generalizing idx with
+  | zero => simp [findFirstNotOfCharLoop]
+  | succ n ih =>
+    have hlt : idx < h.length := by omega
+    simp only [findFirstNotOfCharLoop, rd_ok hlt, ok_bind, List.range'_succ, List.find?_cons,
+      List.getElem?_eq_getElem hlt]
+    by_cases hc : h[idx] = c
+    · simp only [hc, bne_self_eq_false, Bool.false_eq_true, if_false]
+      rw [ih (idx + 1) (by omega)]
+      simp
+    · have : (h[idx] != c) = true := by simpa using hc
+      simp [this, hc]
+
+/-- `find_first_not_of(Char c, pos)` agrees with the view overload on the one-character view -/
+theorem find_first_not_of_char_eq (h : Str) (c pos : Nat) :
+    findFirstNotOfChar h c pos = .ok (Spec.findFirstNotOf h [c] pos) := by
+  unfold findFirstNotOfChar Spec.findFirstNotOf
+  split
+  · exact findFirstNotOfCharLoop_eq h c _ pos (by omega)
+  · have : h.length - pos = 0 := by omega
+    simp [this]
+
+/-! ## find_last_of / find_last_not_of -/
+
+theorem findLastOfLoop_eq (h v : Str) (off : Nat) (hoff : off < h.length) :
+    findLastOfLoop h v off = .ok ((List.range (off + 1)).reverse.find?
+      (fun i => match h[i]? with | some c => v.contains c | none => false)) := by
+  induction off with
+  | zero =>
+    have h0 : 0 < h.length := hoff
+    simp only [findLastOfLoop, rd_ok h0, ok_bind, anyEq_eq, List.range_succ, List.range_zero, List.nil_append,
+      List.reverse_singleton, List.find?_cons, List.find?_nil, List.getElem?_eq_getElem h0]
+    cases v.contains h[0] <;> simp
+  | succ off ih =>
+    simp only [findLastOfLoop, rd_ok hoff, ok_bind, anyEq_eq]
+    rw [List.range_succ, List.reverse_append, List.reverse_singleton, List.singleton_append,
+      List.find?_cons]
+    simp only [List.getElem?_eq_getElem hoff]
+    cases hc : v.contains h[off + 1] with
+    | true => simp
+    | false => simpa using ih (by omega)
+
+/-- `find_last_of(v, pos)`: highest `xpos ≤ pos`, `xpos < size()`, with `h[xpos] ∈ v`; `npos` on an empty view. -/
+theorem find_last_of_eq (h v : Str) (pos : Nat) :
+    findLastOf h v pos = .ok (Spec.findLastOf h v pos) := by
+  unfold findLastOf Spec.findLastOf
+  cases h with
+  | nil => simp
+  | cons x xs =>
+    simp only [List.isEmpty_cons, Bool.false_eq_true, if_false]
+    rw [findLastOfLoop_eq _ _ _ (by simp; omega)]
+    have e : min pos ((x :: xs).length - 1) + 1 = min (pos + 1) (x :: xs).length := by
+      simp only [List.length_cons]; omega
+    rw [e]
+    rfl
+
+theorem findLastNotOfLoop_eq (h v : Str) (off : Nat) (hoff : off < h.length) :
+    findLastNotOfLoop h v off = .ok ((List.range (off + 1)).reverse.find?
+      (fun i => match h[i]? with | some c => !v.contains c | none => false)) := by
+  induction off with
+  | zero =>
+    have h0 : 0 < h.length := hoff
+    simp only [findLastNotOfLoop, rd_ok h0, ok_bind, anyEq_eq, List.range_succ, List.range_zero, List.nil_append,
+      List.reverse_singleton, List.find?_cons, List.find?_nil, List.getElem?_eq_getElem h0]
+    cases v.contains h[0] <;> simp
+  | succ off ih =>
+    simp only [findLastNotOfLoop, rd_ok hoff, ok_bind, anyEq_eq]
+    rw [List.range_succ, List.reverse_append, List.reverse_singleton, List.singleton_append,
+      List.find?_cons]
+    simp only [List.getElem?_eq_getElem hoff]
+    cases hc : v.contains h[off + 1] with
+    | false => simp
+    | true => simpa using ih (by omega)
+
+theorem find_last_not_of_eq (h v : Str) (pos : Nat) :
+    findLastNotOf h v pos = .ok (Spec.findLastNotOf h v pos) := by
+  unfold findLastNotOf Spec.findLastNotOf
+  cases h with
+  | nil => simp
+  | cons x xs =>
+    simp only [List.isEmpty_cons, Bool.false_eq_true, if_false]
+    rw [findLastNotOfLoop_eq _ _ _ (by simp; omega)]
+    have e : min pos ((x :: xs).length - 1) + 1 = min (pos + 1) (x :: xs).length := by
+      simp only [List.length_cons]; omega
+    rw [e]
+    rfl
+
+
+/-! ## find / contains -/
+
+theorem isPrefixOf_drop_short (h v : Str) (i : Nat) (hi : i ≤ h.length) (hv : h.length < i + v.length) :
+    v.isPrefixOf (h.drop i) = false := by
+  cases hp : v.isPrefixOf (h.drop i) with
+  | false => rfl
+  | true =>
+    have := (List.isPrefixOf_iff_prefix.mp hp).length_le
+    simp at this
+    omega
+
+theorem findOuter_eq (h : Str) (front : Nat) (rest : Str) (n outer : Nat)
+    (hn : n = 0 ∨ outer + n + rest.length ≤ h.length) :
+    findOuter h (front :: rest) front n outer = .ok ((List.range' outer n).find?
+      (fun i => (front :: rest).isPrefixOf (h.drop i))) := by
+  induction n generalizing outer with
+  | zero => simp [findOuter]
+  | succ n ih =>
+    have hlt : outer < h.length := by omega
+    have hin := findInner_eq h outer (front :: rest) 0 (by simp; omega)
+    simp only [Nat.add_zero] at hin
+    simp only [findOuter, rd_ok hlt, ok_bind, List.range'_succ, List.find?_cons, hin]
+    by_cases hf : h[outer] = front
+    · simp only [hf, beq_self_eq_true, if_true, ok_bind]
+      cases hp : (front :: rest).isPrefixOf (h.drop outer) with
+      | true => simp
+      | false =>
+        simp only [Bool.false_eq_true, if_false]
+        exact ih (outer + 1) (by omega)
+    · have h1 : (h[outer] == front) = false := by simpa using hf
+      have h2 : (front :: rest).isPrefixOf (h.drop outer) = false := by
+        rw [List.drop_eq_getElem_cons hlt, List.isPrefixOf_cons_cons]
+        have : (front == h[outer]) = false := by simpa using fun e => hf e.symm
+        simp [this]
+      simp only [h1, h2, Bool.false_eq_true, if_false]
+      exact ih (outer + 1) (by omega)
+
+/-- `find(v, pos)` never reads outside the view and returns the lowest `xpos ≥ pos` at which `v`
+    occurs (`pos` itself for an empty needle with `pos ≤ size()`), `npos` otherwise — for every
+    haystack, needle and position, including `pos > size()` and `npos`. -/
+theorem find_eq (h v : Str) (pos : Nat) : find h v pos = .ok (Spec.find h v pos) := by
+  unfold find Spec.find Spec.upFrom
+  split
+  · -- early exit: no candidate can match
+    rename_i hc
+    simp only [Bool.or_eq_true, decide_eq_true_eq] at hc
+    congr 1
+    symm
+    rw [List.find?_eq_none]
+    intro i hi
+    simp only [List.mem_range'_1] at hi
+    have h1 : i ≤ h.length := by omega
+    have : h.length < i + v.length := by omega
+    simp [isPrefixOf_drop_short h v i h1 this]
+  · rename_i hc
+    simp only [Bool.or_eq_true, decide_eq_true_eq, not_or, Nat.not_lt] at hc
+    cases v with
+    | nil =>
+      have : h.length + 1 - pos = (h.length - pos) + 1 := by omega
+      simp [this, List.range'_succ]
+    | cons front rest =>
+      simp only [List.length_cons] at hc ⊢
+      rw [findOuter_eq h front rest _ pos (by omega)]
+      congr 1
+      -- the candidates beyond size() - |v| cannot match
+      have hsplit : h.length + 1 - pos = (h.length - (rest.length + 1) + 1 - pos) + (rest.length + 1) := by omega
+      rw [hsplit, ← List.range'_append_1, List.find?_append]
+      have hnone : (List.range' (pos + (h.length - (rest.length + 1) + 1 - pos)) (rest.length + 1)).find?
+          (fun i => (front :: rest).isPrefixOf (h.drop i)) = none := by
+        rw [List.find?_eq_none]
+        intro i hi
+        simp only [List.mem_range'_1] at hi
+        have h1 : i ≤ h.length := by omega
+        have : h.length < i + (front :: rest).length := by simp; omega
+        simp [isPrefixOf_drop_short h _ i h1 this]
+      rw [hnone, Option.or_none]
+
+theorem contains_eq (h v : Str) : contains h v = .ok (Spec.contains h v) := by
+  simp [contains, Spec.contains, find_eq]
+
+/-! ## substr / copy / remove_prefix / remove_suffix / starts_with / ends_with -/
+
+theorem take_min_drop (h : Str) (pos count : Nat) :
+    (h.drop pos).take (min count (h.length - pos)) = (h.drop pos).take count := by
+  rw [List.take_eq_take_iff]
+  simp
+
+/-- `substr(pos, count)` under its precondition `pos ≤ size()` -/
+theorem substr_eq (h : Str) (pos count : Nat) (hp : pos ≤ h.length) :
+    substr h pos count = .ok (Spec.substr h pos count) := by
+  have : ¬ pos > h.length := by omega
+  simp [substr, Spec.substr, this, take_min_drop]
+
+example : substr [1, 2, 3] 1 NPOS = .ok [2, 3] := by rfl
+
+theorem copyLoop_eq (h : Str) (pos n i : Nat) (hb : pos + i + n ≤ h.length) :
+    copyLoop h pos n i = .ok ((h.drop (pos + i)).take n) := by
+  induction n generalizing i with
+  | zero => simp [copyLoop]
+  | succ n ih =>
+    have hlt : pos + i < h.length := by omega
+    rw [List.drop_eq_getElem_cons hlt]
+    simp only [copyLoop, rd_ok hlt, ok_bind, ih (i + 1) (by omega), List.take_succ_cons]
+    rfl
+
+/-- `copy(dest, count, pos)` writes exactly `substr(pos, count)` and returns its length -/
+theorem copy_eq (h : Str) (count pos : Nat) (hp : pos ≤ h.length) :
+    copy h count pos = .ok ((Spec.substr h pos count).length, Spec.substr h pos count) := by
+  have hnp : ¬ pos > h.length := by omega
+  simp only [copy, hnp, if_false, Spec.substr]
+  rw [copyLoop_eq h pos _ 0 (by omega)]
+  simp only [Nat.add_zero, ok_bind, take_min_drop, pure_eq_ok]
+  congr 2
+  simp [List.length_take]
+
+theorem remove_prefix_eq (h : Str) (n : Nat) (hn : n ≤ h.length) : removePrefix h n = .ok (h.drop n) := by
+  have : ¬ n > h.length := by omega
+  simp [removePrefix, this]
+
+theorem remove_suffix_eq (h : Str) (n : Nat) (hn : n ≤ h.length) :
+    removeSuffix h n = .ok (h.take (h.length - n)) := by
+  have : ¬ n > h.length := by omega
+  simp [removeSuffix, this]
+
+theorem viewEq_eq (a b : Str) : viewEq a b = .ok (a == b) := by
+  unfold viewEq
+  split
+  · rename_i hl
+    have : a ≠ b := fun e => by simp [e] at hl
+    simp [this]
+  · simp only [compare_eq, ok_bind]
+    by_cases hab : a = b
+    · simp [hab, (cmp_eq_zero_iff b b).mpr rfl]
+    · have t : Spec.cmp a b ≠ 0 := fun e => hab ((cmp_eq_zero_iff a b).mp e)
+      have h1 : (a == b) = false := by simpa using hab
+      have h2 : (Spec.cmp a b == 0) = false := by simpa using t
+      rw [h1, h2]
+
+/-- `starts_with(sv)` -/
+theorem starts_with_eq (h sv : Str) : startsWith h sv = .ok (Spec.startsWith h sv) := by
+  unfold startsWith Spec.startsWith
+  rw [substr_eq h 0 sv.length (by omega)]
+  simp only [ok_bind, viewEq_eq, Spec.substr, List.drop_zero]
+  congr 1
+  rw [Bool.eq_iff_iff]
+  simp only [beq_iff_eq, List.isPrefixOf_iff_prefix]
+  constructor
+  · intro e; rw [← e]; exact List.take_prefix _ _
+  · intro p; exact (List.prefix_iff_eq_take.mp p).symm
+
+/-- `ends_with(sv)`; `size() ≤ max_size() = npos` is the only assumption -/
+theorem ends_with_eq (h sv : Str) (hs : h.length ≤ NPOS) : endsWith h sv = .ok (Spec.endsWith h sv) := by
+  unfold endsWith Spec.endsWith
+  split
+  · rename_i hge
+    simp only [compare3]
+    rw [substr_eq h _ NPOS (by omega)]
+    simp only [ok_bind, compare_eq, Spec.substr]
+    have ht : (h.drop (h.length - sv.length)).take NPOS = h.drop (h.length - sv.length) := by
+      apply List.take_of_length_le; simp; omega
+    rw [ht]
+    congr 1
+    rw [Bool.eq_iff_iff]
+    simp only [beq_iff_eq, cmp_eq_zero_iff, List.isSuffixOf_iff_suffix]
+    constructor
+    · intro e; rw [← e]; exact List.drop_suffix _ _
+    · intro p; exact (List.suffix_iff_eq_drop.mp p).symm
+  · rename_i hlt
+    congr 1
+    symm
+    cases hp : sv.isSuffixOf h with
+    | false => rfl
+    | true =>
+      have := (List.isSuffixOf_iff_suffix.mp hp).length_le
+      omega
+
+example : ([1, 2, 3] : Str).length ≤ NPOS := by decide
+
+theorem starts_with_char_eq (h : Str) (c : Nat) : startsWithChar h c = .ok (Spec.startsWith h [c]) := by
+  cases h with
+  | nil => simp [startsWithChar, Spec.startsWith]
+  | cons x xs =>
+    simp only [startsWithChar, Spec.startsWith, List.isEmpty_cons, Bool.false_eq_true, if_false,
+      rd_cons_zero, ok_bind, pure_eq_ok, List.isPrefixOf_cons_cons, List.isPrefixOf_nil_left, Bool.and_true]
+    rw [Bool.beq_comm]
+
+
+theorem ends_with_char_eq (h : Str) (c : Nat) : endsWithChar h c = .ok (Spec.endsWith h [c]) := by
+  unfold endsWithChar Spec.endsWith
+  cases hh : h.isEmpty with
+  | true =>
+    have : h = [] := by simpa using hh
+    subst this
+    simp [List.isSuffixOf]
+  | false =>
+    have hne : h ≠ [] := by simpa using hh
+    have hlt : h.length - 1 < h.length := by
+      have := List.length_pos_iff.mpr hne; omega
+    simp only [Bool.false_eq_true, if_false, rd_ok hlt, ok_bind, pure_eq_ok]
+    congr 1
+    rw [Bool.eq_iff_iff]
+    simp only [beq_iff_eq, List.isSuffixOf_iff_suffix]
+    rw [← List.getLast_eq_getElem hne] 
+    constructor
+    · intro e
+      refine ⟨h.dropLast, ?_⟩
+      rw [← e]; exact List.dropLast_concat_getLast hne
+    · rintro ⟨t, rfl⟩
+      simp
+
+/-- `compare(pos1, count1, v)` = compare of the specified substring -/
+theorem compare3_eq (a : Str) (pos1 count1 : Nat) (b : Str) (hp : pos1 ≤ a.length) :
+    compare3 a pos1 count1 b = .ok (Spec.cmp (Spec.substr a pos1 count1) b) := by
+  simp [compare3, substr_eq a pos1 count1 hp, compare_eq]
+
+theorem compare5_eq (a : Str) (pos1 count1 : Nat) (b : Str) (pos2 count2 : Nat)
+    (hp1 : pos1 ≤ a.length) (hp2 : pos2 ≤ b.length) :
+    compare5 a pos1 count1 b pos2 count2 =
+      .ok (Spec.cmp (Spec.substr a pos1 count1) (Spec.substr b pos2 count2)) := by
+  simp [compare5, substr_eq a pos1 count1 hp1, substr_eq b pos2 count2 hp2, compare_eq]
+
+example : compare5 [1, 2, 3] 1 2 [2, 200] 0 NPOS = .ok (-1) := by rfl
+
+/-! ## rfind(Char) -/
+
+theorem single_isPrefixOf_drop (h : Str) (c i : Nat) :
+    ([c] : Str).isPrefixOf (h.drop i) = (h[i]? == some c) := by
+  by_cases hi : i < h.length
+  · rw [List.drop_eq_getElem_cons hi, List.getElem?_eq_getElem hi]
+    simp only [List.isPrefixOf_cons_cons, List.isPrefixOf_nil_left, Bool.and_true]
+    by_cases hc : h[i] = c
+    · simp [hc]
+    · have h1 : (c == h[i]) = false := by simpa using fun e => hc e.symm
+      have h2 : (some h[i] == some c) = false := by simpa using hc
+      rw [h1, h2]
+  · have : h.drop i = [] := List.drop_eq_nil_of_le (by omega)
+    simp [this, List.getElem?_eq_none (Nat.le_of_not_lt hi)]
+
+theorem rfindCharLoop_eq (h : Str) (c s : Nat) (hs : s ≤ h.length) :
+    rfindCharLoop h c s = .ok ((List.range s).reverse.find? (fun i => ([c] : Str).isPrefixOf (h.drop i))) := by
+  induction s with
+  | zero => simp [rfindCharLoop]
+  | succ s ih =>
+    have hlt : s < h.length := by omega
+    simp only [rfindCharLoop, rd_ok hlt, ok_bind]
+    rw [List.range_succ, List.reverse_append, List.reverse_singleton, List.singleton_append,
+      List.find?_cons, single_isPrefixOf_drop, List.getElem?_eq_getElem hlt]
+    by_cases hc : h[s] = c
+    · simp [hc]
+    · have h1 : (h[s] == c) = false := by simpa using hc
+      have h2 : (some h[s] == some c) = false := by simpa using hc
+      simp only [h1, h2, Bool.false_eq_true, if_false]
+      exact ih (by omega)
+
+/-- `rfind(Char c, pos)` equals `rfind` of the one-character view -/
+theorem rfind_char_eq (h : Str) (c pos : Nat) : rfindChar h c pos = .ok (Spec.rfind h [c] pos) := by
+  unfold rfindChar Spec.rfind
+  split
+  · have : h = [] := List.eq_nil_of_length_eq_zero (by omega)
+    subst this
+    simp [List.range_succ]
+  · rw [rfindCharLoop_eq h c _ (by split <;> omega)]
+    congr 1
+    by_cases hp : pos < h.length
+    · have : min pos h.length + 1 = pos + 1 := by omega
+      simp [hp, this]
+    · have hm : min pos h.length = h.length := by omega
+      simp only [hp, if_false, hm]
+      rw [List.range_succ, List.reverse_append, List.reverse_singleton, List.singleton_append,
+        List.find?_cons, single_isPrefixOf_drop]
+      simp
+
+
+/-! ## rfind(sv, pos) — through `etl::find_end` / `etl::search` on the clamped prefix -/
+
+/-- `rfind(sv, pos)` never reads outside the view and returns the highest `xpos ≤ pos` at which
+    `sv` occurs, `npos` if there is none — for every haystack, needle and position. -/
+theorem rfind_eq (h sv : Str) (pos : Nat) : rfind h sv pos = .ok (Spec.rfind h sv pos) := by
+  unfold rfind Spec.rfind
+  simp only [pure_eq_ok]
+  by_cases hsv : sv = []
+  · subst hsv
+    have e : (if ([] : Str).length < h.length - min pos h.length then min pos h.length + ([] : Str).length
+        else h.length) = min pos h.length := by
+      simp only [List.length_nil, Nat.add_zero]; split <;> omega
+    rw [e]
+    simp [findEnd, List.range_succ]
+  · generalize hp1 : min pos h.length = pos1
+    generalize hlast : (if sv.length < h.length - pos1 then pos1 + sv.length else h.length) = last
+    have hlen : 0 < sv.length := List.length_pos_iff.mpr hsv
+    have hp1' : pos1 ≤ h.length := by omega
+    have hl : last ≤ h.length := by rw [← hlast]; split <;> omega
+    have hl2 : last ≤ pos1 + sv.length := by rw [← hlast]; split <;> omega
+    have hl3 : pos1 ≤ last := by rw [← hlast]; split <;> omega
+    have hemp : sv.isEmpty = false := by simpa using hsv
+    simp only [findEnd, hemp, Bool.false_eq_true, if_false]
+    rw [findEndLoop_eq h last hl sv hsv (last + 1) 0 last (by omega) (by omega)]
+    simp only [ok_bind]
+    -- occurrences inside the prefix are exactly the occurrences at positions ≤ pos1
+    have hL : lastIn (Mh h last sv) 0 (last + 1)
+        = lastIn (fun i => sv.isPrefixOf (h.drop i)) 0 (pos1 + 1) := by
+      rw [lastIn_drop_tail _ 0 (pos1 + 1) (last + 1) (by omega)
+        (fun j h1 h2 => by rw [Mh_eq h last _ hsv]; simp only [Bool.and_eq_false_iff, decide_eq_false_iff_not]; right; omega)]
+      apply lastIn_congr
+      intro j _ hj
+      rw [Mh_eq h last _ hsv]
+      cases hpj : sv.isPrefixOf (h.drop j) with
+      | false => simp
+      | true =>
+        have := (List.isPrefixOf_iff_prefix.mp hpj).length_le
+        simp only [List.length_drop] at this
+        have hb : j + sv.length ≤ last := by
+          rw [← hlast]; split <;> omega
+        simp [hb]
+    rw [reverse_range_find, ← hL]
+    have hgt : decide (sv.length > 0) = true := by simpa using hlen
+    cases hr : lastIn (Mh h last sv) 0 (last + 1) with
+    | none => simp [hgt]
+    | some r =>
+      obtain ⟨hm, hrl⟩ := lastIn_some _ _ _ _ hr
+      have hrlt : r < last := by
+        have hshort : ¬ (last - r < sv.length) := by
+          intro hsh; rw [Mh_false_of_short h last _ r hsh hl] at hm; cases hm
+        omega
+      have : (r == last) = false := by simpa using (by omega : r ≠ last)
+      simp [this]
+
+example : rfind [97, 98, 97, 98] [97, 98] NPOS = .ok (some 2) := by rfl
+example : rfind [97, 98, 97, 98] [97, 98] 1 = .ok (some 0) := by rfl
 
 end Tetl.C08.Props
